@@ -105,6 +105,11 @@ def gen_random(rng, big):
     vars_ = [{"name": n, "fix": rng.choice([0, 2]), "v": f"v{rng.randint(0, 9)}", "e": f"v{rng.randint(0, 9)}"}
              for n in rng.sample(PAR_NAMES, rng.randint(0, 4))]
     consts = [{"name": n, "v": f"v{rng.randint(0, 9)}"} for n in rng.sample(CONST_NAMES, rng.randint(0, 3))]
+    # a name stated on more than one line (a default followed by an override): still one row per line
+    if vars_ and rng.random() < 0.4:
+        vars_.insert(rng.randint(0, len(vars_)), dict(rng.choice(vars_), v=f"v{rng.randint(0, 9)}"))
+    if consts and rng.random() < 0.4:
+        consts.insert(rng.randint(0, len(consts)), dict(rng.choice(consts), v=f"v{rng.randint(0, 9)}"))
     return {"event": ["M", "a", "b", "b", "c"], "lines": lines, "vars": vars_, "consts": consts,
             "cart": rng.choice(["absent", "absent", "0", "1"]), "extra": rng.sample(EXTRAS, rng.randint(0, 2))}
 
